@@ -143,9 +143,19 @@ Reused ==
                                  (IF want THEN "not allowed" ELSE "allowed although the configuration was replaced")>>}
   /\ UNCHANGED <<mws, ref, cfgfp, gens, stats>>
 
+\* What debug mode IS (C09): a preflight that fails after the origin step shows the ok status and partial headers exactly when
+\* the middleware is configured and its debug mode is on.
+Debug ==
+  /\ Ev("Debug")
+  /\ LET e == Trace[l]  want == mws[e.mw].icfg # Nil /\ mws[e.mw].debug IN
+     bad' = IF e.shown = want THEN bad
+            ELSE bad \cup {<<l, IF want THEN "debug mode is on by the calls made, but a failing preflight gets no diagnostics"
+                                        ELSE "debug mode is off by the calls made, but a failing preflight gets diagnostics">>}
+  /\ UNCHANGED <<mws, ref, cfgfp, gens, stats>>
+
 Init == l = 1 /\ mws = EmptyFn /\ ref = EmptyFn /\ cfgfp = EmptyFn /\ gens = EmptyFn /\ bad = {}
         /\ stats = [segments |-> 0, observations |-> 0, compared |-> 0, weak |-> 0, debugOn |-> 0]
-Next == Reset \/ Skip \/ Zero \/ New \/ Reconf \/ SetDebug \/ Observe \/ Pair \/ Reused
+Next == Reset \/ Skip \/ Zero \/ New \/ Reconf \/ SetDebug \/ Observe \/ Pair \/ Reused \/ Debug
 Spec == Init /\ [][Next]_vars
 
 Final == (l = Len(Trace) + 1) =>
